@@ -108,10 +108,12 @@ def run(tier, replay=None):
     chk.rule = ('one case per (conformant document emitted by DocGen for a map, fill mode); documents are distinct complete walks of the map '
                 '(one per abstract generator position + random deep walks); non-trivial = has at least one transaction set')
     q = tier == 'quick'
+    if not q:
+        wc.MEMO_MAPS = True       # thorough tier: each worker process loads every map once (reuse of map objects is C18's subject)
     rnd = random.Random(vlib.seed() + 2)
     files = wc.choose_maps(tier, rnd, wide=True)
     gens = wc.gen_docs_many(files, cap=2, maxdepth=60 if q else 80, timeout=2400)
-    sims = wc.gen_docs_many(files, cap=3, maxdepth=150, mode='sim', num=40 if q else 400, seed=vlib.seed(), timeout=2400)
+    sims = wc.gen_docs_many(files, cap=3, maxdepth=150, mode='sim', num=40 if q else 150, seed=vlib.seed(), timeout=2400)
     model_viol = {}
     jobs = []
     base = 0
